@@ -178,7 +178,7 @@ func (x *Exec) pickThread(en []*thread) *thread {
 	if x.threads.steps > x.schedBound() {
 		x.abort(Unwind, fmt.Sprintf("more than %d scheduling decisions", x.schedBound()))
 	}
-	ch := x.freshInput("sched", 8)
+	ch := x.freshAux("sched", 8)
 	x.Assume(x.cx.Cmp("bvult", ch, mkConst(8, uint64(len(en)))))
 	k := x.Concretize(ch, "schedule")
 	return en[k]
@@ -494,7 +494,7 @@ func (x *Exec) selectOp(fr *frame, instr *ssa.Select) Value {
 	// several ready cases: Go picks pseudo-randomly => nondeterministic choice
 	chosen := rd[0]
 	if len(rd) > 1 {
-		ch := x.freshInput("select", 8)
+		ch := x.freshAux("select", 8)
 		x.Assume(x.cx.Cmp("bvult", ch, mkConst(8, uint64(len(rd)))))
 		chosen = rd[x.Concretize(ch, "select choice")]
 	}
